@@ -310,6 +310,7 @@ class ExprMixin:
                 yield st2, a
                 continue
             sub_exits = []
+            lc = len(cont.pc)
             rest = list(self._boolop(op, values[1:], cont, sub_exits))
             exits.extend(sub_exits)
             if z3.is_true(go):
@@ -318,7 +319,7 @@ class ExprMixin:
             if len(rest) == 1 and (rest[0][1].ty == a.ty) and not isinstance(a.ty, TPy):
                 # merge: value = If(go, rest, a); facts learnt on the rest-path become implications
                 rst, rv = rest[0]
-                extra = rst.pc[len(cont.pc):]
+                extra = rst.pc[lc:]
                 m = st2
                 for f in extra:
                     m.assume(z3.Implies(go, f))
@@ -329,7 +330,7 @@ class ExprMixin:
             if self.spec_mode:
                 if len(rest) == 1:
                     rst, rv = rest[0]
-                    extra = rst.pc[len(cont.pc):]
+                    extra = rst.pc[lc:]
                     for f in extra:
                         st2.assume(z3.Implies(go, f))
                     tb = self.truthy(rv)
@@ -353,15 +354,16 @@ class ExprMixin:
                 continue
             a = st2.copy().assume(t)
             b = st2.copy().assume(z3.Not(t))
+            la, lb = len(a.pc), len(b.pc)       # facts learnt while evaluating a branch are appended after these
             ra = list(self.ev(e.body, a, exits)) if (self.spec_mode or self.feasible(a)) else []
             rb = list(self.ev(e.orelse, b, exits)) if (self.spec_mode or self.feasible(b)) else []
             if len(ra) == 1 and len(rb) == 1 and _same_heap(ra[0][0], st2) and _same_heap(rb[0][0], st2):
                 va, vb = ra[0][1], rb[0][1]
                 ty = _join_ty(va.ty, vb.ty)
                 if ty is not None and not isinstance(ty, TPy):
-                    for f in ra[0][0].pc[len(a.pc):]:
+                    for f in ra[0][0].pc[la:]:
                         st2.assume(z3.Implies(t, f))
-                    for f in rb[0][0].pc[len(b.pc):]:
+                    for f in rb[0][0].pc[lb:]:
                         st2.assume(z3.Implies(z3.Not(t), f))
                     yield st2, V(ty, z3.If(t, self.coerce(va, ty).t, self.coerce(vb, ty).t))
                     continue
@@ -597,7 +599,10 @@ class ExprMixin:
                 return None
             if ty is STR:
                 return V(STR, z3.SubString(base.t, pos, 1))
-            return V(ty.elem, base.t[pos])
+            out = V(ty.elem, base.t[pos])
+            if isinstance(ty.elem, TRef) and not ty.elem.nullable and not self.spec_mode:
+                st.assume(out.t != null())      # type invariant of Seq[Ref[C]]: elements are objects, not None
+            return out
         if isinstance(ty, TTuple):
             i = z3.simplify(idx.t)
             if not z3.is_int_value(i):
@@ -697,6 +702,11 @@ class ExprMixin:
             return V(MOD, f'<global {m.relpath}:{attr}>')
         if isinstance(p, str):
             d = f'{p}.{attr}'
+            ev_ = getattr(self.reg, 'ext_values', {})
+            if d in ev_:
+                # an external singleton / constant with a declared type: a distinguished constant
+                ty_ = parse_type(ev_[d], self.reg.enums)
+                return V(ty_, z3.Const('ext_' + ''.join(c if c.isalnum() else '_' for c in d), ty_.sort()))
             fv = getattr(self.reg, 'fact_values', {})
             if d in fv and isinstance(fv[d], (int, str, bool)):
                 self.assumptions_used['fact:' + d] = f'external constant {d} = {fv[d]!r} (read from the installed package this run)'
